@@ -120,6 +120,34 @@ fn execute<V: Variant, P: Peer>(plan: &Plan) -> (Option<(String, String)>, Stats
                 }
             };
             let (our_pk, ref_pk_bytes) = if key_is_ours { (&opk, &opk_b) } else { (&imp_pk, &ppk_b) };
+            // Now and then the verifier here first receives a damaged copy of the signature (a bit set in
+            // the padding, the body cut short, a stop bit removed): its verdict on that copy is nobody's
+            // business here, but the genuine signature that follows must be accepted all the same.
+            if rng.chance(1, 6) && ours_frame.len() > 60 {
+                let mut bad = ours_frame.clone();
+                match rng.below(3) {
+                    0 => {
+                        let l = bad.len();
+                        bad[l - 1] |= 1;
+                    }
+                    1 => {
+                        let l = bad.len();
+                        for b in bad[l / 2..].iter_mut() {
+                            *b = 0;
+                        }
+                    }
+                    _ => {
+                        for b in bad[41..].iter_mut() {
+                            *b = 0;
+                        }
+                    }
+                }
+                let _ = crate::guard::guarded(|| match V::sig_from_bytes(&bad) {
+                    Ok(s) => V::verify(msg, &s, our_pk),
+                    Err(_) => false,
+                });
+                st.inc("damaged_copies_delivered_first");
+            }
             // verifier here
             let ok_here = crate::guard::guarded(|| match V::sig_from_bytes(&ours_frame) {
                 Ok(s) => V::verify(msg, &s, our_pk),
@@ -609,7 +637,7 @@ pub fn check(tier: Tier, seed: u64) -> i32 {
     }
     rep.rule = "a case is one signature exchange: for a falcon-rust key pair (from a fresh seed, or from one of the pinned seeds whose key generation takes a rare branch) and a reference key pair (PQClean keygen with simulator-seeded randombytes; either the next one, or one selected among 8000 + 3000 (thorough 60000 + 24000) for an extreme feature: a coefficient +-127 in F or in the recomputed G, a coefficient of f or g at its field limit, a public key that is not a unit, a public-key coefficient 0 or q-1), each message is signed in all four (signer, key-origin) combinations, with keys crossing as bytes, and every signature is checked by both verifiers after re-framing (header 0x50|logn <-> 0x30|logn, zero padding stripped / added); before that, key bytes are imported and re-exported on this side and the public key is re-derived from the imported secret key; a deep batch (instrumented build) has 2-5 baton-scheduled threads, each mostly with its own reference public key, verify re-framed reference signatures under function-entry pre-emption; all exchanges are non-trivial; distinct = distinct signature bytes".into();
     rep.assumptions = vec![
-        "PQClean (pqcrypto-falcon 0.3.0) is the reference on honest traffic; no faults are injected here (a damaged exchange promises nothing)".into(),
+        "PQClean (pqcrypto-falcon 0.3.0) is the reference on honest traffic; a damaged exchange promises nothing about itself - damaged copies are delivered only to check that the genuine exchange that follows is unaffected".into(),
         "reference signatures whose compressed part exceeds this library's fixed frame cannot be re-framed and are counted as skipped".into(),
         "a failure of the reference signer with its own key is a harness error, not a violation".into(),
     ];
